@@ -45,6 +45,39 @@ def respects (ivs : List Iv) (untouched : List Extent) : Bool := ivs.all (fun i 
 def offender (ivs : List Iv) (untouched : List Extent) : Option (Iv × Extent) :=
   (ivs.flatMap (fun i => untouched.map (fun x => (i, x)))).find? (fun p => !clearOf p.1 p.2)
 
+/-! ### `Changelog.ChangedIntervals`: the positions recorded as changed and not recorded as unchanged -/
+
+/-- the position lies in one of the intervals (an interval with `e ≤ s` holds nothing) -/
+def covers (ivs : List Iv) (p : Nat) : Bool := ivs.any (fun i => i.s ≤ p && p < i.e)
+
+/-- the set `plus − minus` of `ChangedIntervals`, position by position -/
+def changedAt (plus minus : List Iv) (p : Nat) : Bool := covers plus p && !covers minus p
+
+/-- the interval list denotes only changed positions, each interval non-empty (tested on the intervals the real
+changelog returns, position by position) -/
+def soundOutB (out plus minus : List Iv) : Bool :=
+  out.all (fun iv => iv.s < iv.e && (List.range' iv.s (iv.e - iv.s)).all (changedAt plus minus))
+
+/-- the region keeps clear of the extent, with no exemption for regions that start at NoPos -/
+def strongClear (r : Iv) (x : Extent) : Bool := r.e ≤ x.s || x.e ≤ r.s || r.e ≤ r.s
+
+/-- the boundaries at which membership can change -/
+def boundaries (plus minus : List Iv) : List Nat :=
+  ((plus ++ minus).flatMap (fun i => [i.s, i.e])).foldr (fun b acc => if acc.contains b then acc else b :: acc) []
+
+def insertSorted (b : Nat) : List Nat → List Nat
+  | [] => [b]
+  | a :: as => if b ≤ a then b :: a :: as else a :: insertSorted b as
+
+/-- `ChangedIntervals` as a canonical list: the maximal runs of changed positions, in order -/
+def changedIntervals (plus minus : List Iv) : List Iv :=
+  let bs := (boundaries plus minus).foldr insertSorted []
+  let segs := (bs.zip bs.tail).filter (fun p => changedAt plus minus p.1)
+  segs.foldl (fun (acc : List Iv) p =>
+    match acc.getLast? with
+    | some l => if l.e == p.1 then acc.dropLast ++ [{ s := l.s, e := p.2 }] else acc ++ [{ s := p.1, e := p.2 }]
+    | none => [{ s := p.1, e := p.2 }]) []
+
 mutual
 /-- the value has no comment group anywhere -/
 def noComments : V → Bool
